@@ -56,6 +56,21 @@ def main(path):
                     print('      %s%3d %s' % ('>>' if k == i - 1 else '  ', k + 1, {a: b for a, b in e.items() if b not in (0, '', -1, []) and a != 'i'}))
             if mine or r['status'] != 'ok':
                 reproduced += 1
+        elif rp.get('kind') == 'suite':
+            from .props import suitetraces
+            units, tail = suitetraces.record(select=['"%s"' % rp['test']])
+            traces = [{'tid': k, 'events': [dict(e, kind='tcp') if e['ev'] == 'meta' else e for e in u['events']]} for k, (t, u) in enumerate(units, 1)]
+            res, _ = trace.validate(traces)
+            for k, (t, u) in enumerate(units, 1):
+                fails = sorted(set(c for c, i in res.get(k, [])))
+                print('    %s endpoint (%s), %d events: clauses failing now: %s' % (u['ep'], u['cls'], len(u['events']), fails))
+                if f.get('clause') in fails:
+                    reproduced += 1
+                    for (c, i) in res.get(k, []):
+                        if c == f.get('clause'):
+                            for e in u['events'][max(0, i - 8):i + 1]:
+                                print('      %s%3d %s' % ('>>' if e['i'] == i else '  ', e['i'], {a: b for a, b in e.items() if b not in (0, '', -1, []) and a != 'i'}))
+                            break
         elif rp.get('kind') == 'dispatch':
             from .props import dispatch
 
